@@ -39,7 +39,7 @@ theorem eraseL_map (ks : List Node) : eraseL ks = ks.map erase := by
   | nil => simp [eraseL]
   | cons k ks ih => simp [eraseL, ih]
 
-theorem sortL_map (ks : List Node) : sortL ks = ks.map sortN := by
+theorem sortL_map (fold : Str → Str) (ks : List Node) : sortL fold ks = ks.map (sortN fold) := by
   induction ks with
   | nil => simp [sortL]
   | cons k ks ih => simp [sortL, ih]
@@ -109,30 +109,30 @@ theorem filter_tag_grp_perm (l : List Node) : (l.filter isTag ++ l.filter isGrp)
         List.perm_middle.trans (List.Perm.cons _ ih)
       simpa [List.filter_cons, isTag, isGrp] using h
 
-theorem arrange_perm (l : List Node) : (arrange l).Perm l := by
+theorem arrange_perm (l : List Node) : (arrange fold l).Perm l := by
   unfold arrange
   exact (List.Perm.append (isort_perm _ _) (isort_perm _ _)).trans (filter_tag_grp_perm l)
 
 /-- `sorted()` keeps, at every level, exactly the (recursively sorted) children: it only reorders siblings. -/
 theorem sort_perm (ks : List Node) :
-    (sortG ks).Perm (ks.map sortN) ∧ ∀ ls, sortN (.grp ls) = .grp (sortG ls) := by
+    (sortG fold ks).Perm (ks.map (sortN fold)) ∧ ∀ ls, sortN fold (.grp ls) = .grp (sortG fold ls) := by
   constructor
-  · unfold sortG; rw [sortL_map]; exact arrange_perm _
+  · unfold sortG; rw [sortL_map]; exact arrange_perm fold _
   · intro ls; simp [sortN, sortG]
 
-theorem mem_arrange {n : Node} {l : List Node} : n ∈ arrange l ↔ n ∈ l := (arrange_perm l).mem_iff
+theorem mem_arrange {n : Node} {l : List Node} : n ∈ arrange fold l ↔ n ∈ l := (arrange_perm fold l).mem_iff
 
-theorem mem_allTags_sortN (t : Tag) : ∀ n, t ∈ allTags (sortN n) ↔ t ∈ allTags n := by
+theorem mem_allTags_sortN (t : Tag) : ∀ n, t ∈ allTags (sortN fold n) ↔ t ∈ allTags n := by
   apply node_ind
   · intro u; simp [sortN]
   · intro ks ih
     simp only [sortN, allTags, mem_allTagsL, mem_arrange, sortL_map, List.mem_map]
     constructor
     · rintro ⟨k, ⟨m, hm, rfl⟩, hk⟩; exact ⟨m, hm, (ih m hm).1 hk⟩
-    · rintro ⟨m, hm, hk⟩; exact ⟨sortN m, ⟨m, hm, rfl⟩, (ih m hm).2 hk⟩
+    · rintro ⟨m, hm, hk⟩; exact ⟨sortN fold m, ⟨m, hm, rfl⟩, (ih m hm).2 hk⟩
 
-theorem mem_allTagsL_sortG {t : Tag} {ks : List Node} : t ∈ allTagsL (sortG ks) ↔ t ∈ allTagsL ks := by
-  have := mem_allTags_sortN t (.grp ks)
+theorem mem_allTagsL_sortG {t : Tag} {ks : List Node} : t ∈ allTagsL (sortG fold ks) ↔ t ∈ allTagsL ks := by
+  have := mem_allTags_sortN fold t (.grp ks)
   simpa [sortN, allTags, sortG] using this
 
 theorem mem_allTags_erase (t : Tag) : ∀ n, t ∈ allTags (erase n) ↔ ∃ u ∈ allTags n, t = u.erase := by
@@ -189,7 +189,7 @@ structure Acceptable (dt : Tag) (ks : List Node) : Prop where
 
 /-- the entry stored for an accepted definition: folded key, name, sorted fresh copy of the content -/
 def newEntry (dt : Tag) (ks : List Node) : Entry :=
-  ⟨fold (stripValue dt.extension).1, (stripValue dt.extension).1, eraseL (sortG (contentOf ks)),
+  ⟨fold (stripValue dt.extension).1, (stripValue dt.extension).1, eraseL (sortG fold (contentOf ks)),
    (stripValue dt.extension).2⟩
 
 theorem findGroupIssues_nil (dt : Tag) (ks : List Node) :
@@ -328,9 +328,9 @@ theorem accept_good (dd : DefDict) (dt : Tag) (ks : List Node) (hg : Good dd) :
       obtain ⟨ha, _⟩ := h
       refine ⟨?_, ?_, ?_⟩
       · intro k hk t ht
-        have : t ∈ allTagsL (eraseL (sortG (contentOf ks))) := mem_allTagsL.2 ⟨k, hk, ht⟩
+        have : t ∈ allTagsL (eraseL (sortG fold (contentOf ks))) := mem_allTagsL.2 ⟨k, hk, ht⟩
         obtain ⟨u, hu, rfl⟩ := mem_allTagsL_eraseL.1 this
-        exact (ha.inner u (mem_allTagsL_sortG.1 hu)).1
+        exact (ha.inner u ((mem_allTagsL_sortG fold).1 hu)).1
       · exact eraseL_eraseL _
       · intro ht
         have h1 : (phTags (contentOf ks)).length = 1 := ha.placeholders.2 ht
@@ -339,7 +339,7 @@ theorem accept_good (dd : DefDict) (dt : Tag) (ks : List Node) (hg : Good dd) :
         | cons p r =>
           have hm : p ∈ phTags (contentOf ks) := by simp [hp]
           simp only [phTags, List.mem_filter, decide_eq_true_eq] at hm
-          exact ⟨p.erase, mem_allTagsL_eraseL.2 ⟨p, mem_allTagsL_sortG.2 hm.1, rfl⟩, by rw [hashes_erase]; exact hm.2⟩
+          exact ⟨p.erase, mem_allTagsL_eraseL.2 ⟨p, (mem_allTagsL_sortG fold).2 hm.1, rfl⟩, by rw [hashes_erase]; exact hm.2⟩
   · rw [((accept_iff fold dd dt ks).2 h).1]; exact hg
 
 theorem acceptString_good (dd : DefDict) (root : List Node) (hg : Good dd) :
@@ -1271,19 +1271,186 @@ expected group `[tag, content[# := v]]` element by element (`==` of tags/groups)
 the group as written with the expected group built from the *sorted* stored content. -/
 theorem defexpand_accept_iff (dd : DefDict) (t : Tag) (ks : List Node) :
     (checkDefExpand fold true dd t (some ks) = [] ↔
-      ∃ cs, expansion fold dd t = .ok cs ∧ eqvL (sortG ks) (sortG (.tag t :: cs)) = true) ∧
+      ∃ cs, expansion fold dd t = .ok cs ∧ eqvL fold (sortG fold ks) (sortG fold (.tag t :: cs)) = true) ∧
     (checkDefExpand fold false dd t (some ks) = [] ↔
-      ∃ cs, expansion fold dd t = .ok cs ∧ eqvL ks (.tag t :: cs) = true) := by
+      ∃ cs, expansion fold dd t = .ok cs ∧ eqvL fold ks (.tag t :: cs) = true) := by
   unfold checkDefExpand
   cases expansion fold dd t with
   | ok cs =>
     constructor
-    · by_cases h : eqvL (sortG ks) (sortG (.tag t :: cs)) = true <;> simp [h]
-    · by_cases h : eqvL ks (.tag t :: cs) = true <;> simp [h]
+    · by_cases h : eqvL fold (sortG fold ks) (sortG fold (.tag t :: cs)) = true <;> simp [h]
+    · by_cases h : eqvL fold ks (.tag t :: cs) = true <;> simp [h]
   | noEntry => simp
   | mismatch b => cases b <;> simp
   | internal => simp
 end
+
+/-! ### "up to sibling order": the repaired comparison does not depend on the order of siblings -/
+
+theorem strLe_total : ∀ a b : Str, strLe a b = true ∨ strLe b a = true
+  | [], _ => Or.inl (by simp [strLe])
+  | _ :: _, [] => Or.inr (by simp [strLe])
+  | a :: as, b :: bs => by
+    simp only [strLe, Bool.or_eq_true, decide_eq_true_eq, Bool.and_eq_true, beq_iff_eq]
+    rcases Nat.lt_trichotomy a.toNat b.toNat with h | h | h
+    · exact Or.inl (Or.inl h)
+    · have hab : a = b := Char.toNat_inj.1 h
+      rcases strLe_total as bs with h2 | h2
+      · exact Or.inl (Or.inr ⟨hab, h2⟩)
+      · exact Or.inr (Or.inr ⟨hab.symm, h2⟩)
+    · exact Or.inr (Or.inl h)
+
+theorem strLe_trans : ∀ a b c : Str, strLe a b = true → strLe b c = true → strLe a c = true
+  | [], _, _, _, _ => by simp [strLe]
+  | _ :: _, [], _, h, _ => by simp [strLe] at h
+  | _ :: _, _ :: _, [], _, h => by simp [strLe] at h
+  | a :: as, b :: bs, c :: cs, h1, h2 => by
+    simp only [strLe, Bool.or_eq_true, decide_eq_true_eq, Bool.and_eq_true, beq_iff_eq] at h1 h2 ⊢
+    rcases h1 with h1 | ⟨rfl, h1⟩ <;> rcases h2 with h2 | ⟨rfl, h2⟩
+    · exact Or.inl (by omega)
+    · exact Or.inl h1
+    · exact Or.inl h2
+    · exact Or.inr ⟨rfl, strLe_trans as bs cs h1 h2⟩
+
+theorem strLe_antisymm : ∀ a b : Str, strLe a b = true → strLe b a = true → a = b
+  | [], [], _, _ => rfl
+  | [], _ :: _, _, h => by simp [strLe] at h
+  | _ :: _, [], h, _ => by simp [strLe] at h
+  | a :: as, b :: bs, h1, h2 => by
+    simp only [strLe, Bool.or_eq_true, decide_eq_true_eq, Bool.and_eq_true, beq_iff_eq] at h1 h2
+    rcases h1 with h1 | ⟨rfl, h1⟩ <;> rcases h2 with h2 | ⟨h, h2⟩
+    · omega
+    · subst h; omega
+    · omega
+    · rw [strLe_antisymm as bs h1 h2]
+
+theorem strLe_refl : ∀ a : Str, strLe a a = true
+  | [] => by simp [strLe]
+  | a :: as => by simp [strLe, strLe_refl as]
+
+/-- the order on the sort key `(_sort_key, str)` unfolded -/
+theorem leKey_iff (fold : Str → Str) (a b : Node) :
+    leKey fold a b = true ↔
+      strLe (skey fold a) (skey fold b) = true ∧ (skey fold a = skey fold b → strLe (str a) (str b) = true) := by
+  unfold leKey
+  by_cases h : skey fold a = skey fold b
+  · simp [h, strLe_refl]
+  · simp [h]
+
+theorem leKey_total (fold : Str → Str) (a b : Node) : leKey fold a b = true ∨ leKey fold b a = true := by
+  simp only [leKey_iff]
+  by_cases h : skey fold a = skey fold b
+  · rcases strLe_total (str a) (str b) with h' | h'
+    · exact Or.inl ⟨by rw [h]; exact strLe_refl _, fun _ => h'⟩
+    · exact Or.inr ⟨by rw [h]; exact strLe_refl _, fun _ => h'⟩
+  · rcases strLe_total (skey fold a) (skey fold b) with h' | h'
+    · exact Or.inl ⟨h', fun e => absurd e h⟩
+    · exact Or.inr ⟨h', fun e => absurd e.symm h⟩
+
+theorem leKey_trans (fold : Str → Str) (a b c : Node) (h1 : leKey fold a b = true) (h2 : leKey fold b c = true) :
+    leKey fold a c = true := by
+  rw [leKey_iff] at h1 h2 ⊢
+  refine ⟨strLe_trans _ _ _ h1.1 h2.1, ?_⟩
+  intro e
+  have hab : skey fold a = skey fold b := strLe_antisymm _ _ h1.1 (by rw [e]; exact h2.1)
+  have hbc : skey fold b = skey fold c := by rw [← hab, e]
+  exact strLe_trans _ _ _ (h1.2 hab) (h2.2 hbc)
+
+/-- elements tied in the order have the same canonical key and the same printout -/
+theorem leKey_antisymm (fold : Str → Str) (a b : Node) (h1 : leKey fold a b = true) (h2 : leKey fold b a = true) :
+    skey fold a = skey fold b ∧ str a = str b := by
+  rw [leKey_iff] at h1 h2
+  have hk := strLe_antisymm _ _ h1.1 h2.1
+  exact ⟨hk, strLe_antisymm _ _ (h1.2 hk) (h2.2 hk.symm)⟩
+
+theorem insertBy_pairwise (fold : Str → Str) (x : Node) :
+    ∀ l : List Node, l.Pairwise (fun a b => leKey fold a b = true) →
+    (insertBy (leKey fold) x l).Pairwise (fun a b => leKey fold a b = true)
+  | [], _ => by simp [insertBy]
+  | y :: ys, h => by
+    obtain ⟨hy, hys⟩ := List.pairwise_cons.1 h
+    simp only [insertBy]
+    by_cases hxy : leKey fold x y = true
+    · simp only [hxy, if_true]
+      refine List.pairwise_cons.2 ⟨?_, h⟩
+      intro z hz
+      rcases List.mem_cons.1 hz with rfl | hz
+      · exact hxy
+      · exact leKey_trans fold _ _ _ hxy (hy z hz)
+    · simp only [hxy, Bool.false_eq_true, if_false]
+      refine List.pairwise_cons.2 ⟨?_, insertBy_pairwise fold x ys hys⟩
+      intro z hz
+      rcases List.mem_cons.1 ((insertBy_perm (leKey fold) x ys).mem_iff.1 hz) with rfl | hz
+      · rcases leKey_total fold z y with h' | h'
+        · exact absurd h' hxy
+        · exact h'
+      · exact hy z hz
+
+theorem isort_pairwise (fold : Str → Str) :
+    ∀ l : List Node, (isort (leKey fold) l).Pairwise (fun a b => leKey fold a b = true)
+  | [] => by simp [isort]
+  | x :: xs => by simp only [isort]; exact insertBy_pairwise fold x _ (isort_pairwise fold xs)
+
+/-- sorting two permutations of the same siblings gives the same list when printouts identify siblings -/
+theorem isort_eq_of_perm (fold : Str → Str) {l l' : List Node} (hp : l.Perm l')
+    (hinj : ∀ a ∈ l, ∀ b ∈ l, str a = str b → a = b) : isort (leKey fold) l = isort (leKey fold) l' := by
+  apply List.Perm.eq_of_pairwise (le := fun a b => leKey fold a b = true) _ (isort_pairwise fold l)
+    (isort_pairwise fold l')
+  · exact (isort_perm (leKey fold) l).trans (hp.trans (isort_perm (leKey fold) l').symm)
+  · intro a b ha hb h1 h2
+    have ha' : a ∈ l := (isort_perm (leKey fold) l).mem_iff.1 ha
+    have hb' : b ∈ l := hp.mem_iff.2 ((isort_perm (leKey fold) l').mem_iff.1 hb)
+    exact hinj a ha' b hb' (leKey_antisymm fold _ _ h1 h2).2
+
+/-- **sortG_perm_partial** (extra hypothesis: distinct sorted siblings have distinct printouts): two sibling
+lists whose recursively sorted members are permutations of each other have the same `sorted()` form — this is
+"equal up to sibling order" at every level, by recursion through `sortN`.  The hypothesis cannot be dropped in
+the model: see `sortG_perm_needs_hypothesis`. -/
+theorem sortG_perm_partial (fold : Str → Str) (ks ks' : List Node)
+    (hp : (ks.map (sortN fold)).Perm (ks'.map (sortN fold)))
+    (hinj : ∀ a ∈ ks.map (sortN fold), ∀ b ∈ ks.map (sortN fold), str a = str b → a = b) :
+    sortG fold ks = sortG fold ks' := by
+  unfold sortG arrange
+  rw [sortL_map, sortL_map]
+  congr 1
+  · exact isort_eq_of_perm fold (hp.filter _)
+      (fun a ha b hb => hinj a (List.mem_filter.1 ha).1 b (List.mem_filter.1 hb).1)
+  · exact isort_eq_of_perm fold (hp.filter _)
+      (fun a ha b hb => hinj a (List.mem_filter.1 ha).1 b (List.mem_filter.1 hb).1)
+
+/-- Why the hypothesis stays: in the model a tag text may contain a comma, so the two different sorted groups
+`(a,b)` = one tag "a,b" and `(a,b)` = two tags have the same key and the same printout; the stable sort keeps
+them as written, and the two orders are not `==`.  (The real parser never yields such a tag.) -/
+theorem sortG_perm_needs_hypothesis :
+    let g1 : Node := .grp [.tag { name := ['a', ',', 'b'] }]
+    let g2 : Node := .grp [.tag { name := ['a'] }, .tag { name := ['b'] }]
+    eqvL id (sortG id [g1, g2]) (sortG id [g2, g1]) = false := by
+  decide
+
+theorem eqv_refl (fold : Str → Str) : ∀ n, eqv fold n n = true := by
+  apply node_ind
+  · intro t; simp [eqv, Tag.eqv]
+  · intro ks ih
+    simp only [eqv]
+    induction ks with
+    | nil => simp [eqvL]
+    | cons k r ihr =>
+      simp only [eqvL, ih k (by simp), Bool.true_and]
+      exact ihr (fun x hx => ih x (List.mem_cons_of_mem _ hx))
+
+theorem eqvL_refl (fold : Str → Str) (ks : List Node) : eqvL fold ks ks = true := by
+  have := eqv_refl fold (.grp ks)
+  simpa [eqv] using this
+
+/-- **defexpand_perm_partial**: the repaired check accepts every Def-expand group whose (recursively sorted)
+children are a permutation of the (recursively sorted) expected children `[tag, content[# := v]]`, i.e. every
+group equal to the expansion up to sibling order. -/
+theorem defexpand_perm_partial (fold : Str → Str) (dd : DefDict) (t : Tag) (ks cs : List Node)
+    (he : expansion fold dd t = .ok cs) (hp : (ks.map (sortN fold)).Perm ((Node.tag t :: cs).map (sortN fold)))
+    (hinj : ∀ a ∈ ks.map (sortN fold), ∀ b ∈ ks.map (sortN fold), str a = str b → a = b) :
+    checkDefExpand fold true dd t (some ks) = [] := by
+  rw [(defexpand_accept_iff fold dd t ks).1]
+  exact ⟨cs, he, by rw [sortG_perm_partial fold ks _ hp hinj]; exact eqvL_refl fold _⟩
 
 /-- **defexpand_order_counterexample**: for `(Definition/A, (Red, Blue))` the group `(Def-expand/A, (Red, Blue))`
 — the definition's own content, a sibling permutation of the expansion — is rejected by the original comparison
@@ -1306,6 +1473,17 @@ example : Good ddA := by
   intro k hk t ht
   simp only [List.mem_cons, List.not_mem_nil, or_false] at hk
   rcases hk with rfl | rfl <;> simp only [allTags, List.mem_singleton] at ht <;> subst ht <;> rfl
+
+/-- the hypotheses of `defexpand_perm_partial` hold for the permuted group of the counter-example -/
+example : checkDefExpand id true ddA tDeA (some [.grp [.tag tRed, .tag tBlue], .tag tDeA]) = [] := by
+  have e : List.map (sortN id) [Node.grp [.tag tRed, .tag tBlue], .tag tDeA] =
+      [Node.grp [.tag tBlue, .tag tRed], .tag tDeA] := rfl
+  apply defexpand_perm_partial id ddA tDeA _ [.grp [.tag tBlue, .tag tRed]] rfl
+  · rw [e]; exact List.Perm.swap _ _ _
+  · rw [e]
+    intro a ha b hb h
+    simp only [List.mem_cons, List.not_mem_nil, or_false] at ha hb
+    rcases ha with rfl | rfl <;> rcases hb with rfl | rfl <;> first | rfl | exact absurd h (by decide)
 
 example : WF { kids := [.tag tDefA] } := wf_fresh [.tag tDefA]
 example : shrErrL [.tag tDefA] = false := by decide
